@@ -24,7 +24,7 @@ SPEC = dict(
         "partially freed graph (at least one probe or event fails on the twin)"
     ),
     bound=dict(
-        quick="13 graphs (5 backward incl. a one-row Jacobian, 7 trunk/heads incl. a task without parameters and a regulariser loss, 1 wide; with/without saved tensors), single-loss mtl; events: torchjd call with k in {None,1,2,m} x retain in {F,T}, "
+        quick="15 graphs (5 backward incl. a one-row Jacobian, 9 trunk/heads incl. a task without parameters, a regulariser loss, two feature tensors, an empty shared list, 1 wide; with/without saved tensors), single-loss mtl; events: torchjd call with k in {None,1,2,m} x retain in {F,T}, "
               "autograd.backward with retain in {F,T}; all histories of length <= 3 (length 3 restricted to k in {None,1})",
         thorough="all histories of length <= 3 over the full alphabet and of length 4 with k in {None,1,2}; m in {2,3,4}",
     ),
